@@ -521,7 +521,7 @@ static double trans_app(const std::string& n, double a) {
   z3::expr x = E(ta);
   z3::expr zero = ctx->real_val(0), one = ctx->real_val(1);
   // domain checks first (may fork / abort)
-  if (n == "log") { z3::expr dp = diffp(ta, tconst(0)); if (known_sign(dp) <= 0 && decide(dp <= zero)) path_exit(3, "log of a non-positive value reachable (REAL mode)"); }
+  if (n == "log") { z3::expr dp = diffp(ta, tconst(0)); if (known_sign(dp) <= 0 && decide(dp <= zero)) { if (div0_prune) { __sync_fetch_and_add(&sh->div0_pruned, 1); path_exit(2, ""); } path_exit(3, "log of a non-positive value reachable (REAL mode)"); } }
   if (n == "atanh") { if (decide(x <= -one || x >= one)) path_exit(3, "atanh outside (-1,1) reachable (REAL mode)"); }
   if (n == "tan") { z3::expr lo = ctx->real_val(PI_LO) / 2; if (decide(x <= -lo || x >= lo)) path_exit(3, "tan outside (-pi/2,pi/2) reachable (REAL mode)"); }
   bool fresh; TApp& ap = get_app(n, ta, fresh);
@@ -578,6 +578,19 @@ void __sym_prune(void) { path_exit(2, ""); }
 void __sym_check(int cond, const char* msg) { __sync_fetch_and_add(&sh->asserts, 1); my_asserts++; if (!cond) path_exit(1, msg); }
 static void on_vtalrm(int) { path_exit(1, wd_msg); }
 void __sym_watchdog(double cpu_seconds, const char* msg) { wd_seconds = cpu_seconds; snprintf(wd_msg, sizeof wd_msg, "%s", msg ? msg : "path did not terminate within its CPU-time watchdog"); signal(SIGVTALRM, on_vtalrm); arm_watchdog(); }
+static std::vector<double>* ustream; static int upos = 0, umax_draws = 64;
+double __sym_uniform01(void) {
+  if (upos >= umax_draws) path_exit(2, "");        // bounded exploration: more draws than SYM_MAX_DRAWS on this path
+  if (upos < (int)ustream->size()) return (*ustream)[upos++];
+  std::string nm = "u!" + std::to_string(ustream->size());
+  z3::expr v = ctx->constant(nm.c_str(), *dsort); inputs->push_back({nm, v});
+  if (mode == REAL) { add_pc(v >= ctx->real_val(0) && v < ctx->real_val(1)); }
+  else { add_pc(z3::expr(*ctx, Z3_mk_fpa_geq(*ctx, v, ctx->fpa_val(0.0))) && z3::expr(*ctx, Z3_mk_fpa_lt(*ctx, v, ctx->fpa_val(1.0)))); }
+  use_axiom("random source: every uniform draw is a fresh unknown u_k with 0 <= u_k < 1");
+  double h = mk_handle(v); ustream->push_back(h); upos++; return h;
+}
+void __sym_uniform_rewind(void) { upos = 0; }
+int __sym_uniform_count(void) { return upos; }
 void __sym_note(const char* msg) { fprintf(stderr, "[note] %s\n", msg); }
 void __sym_label(const char* msg) { choices->push_back(msg); cfg_update(); }
 int __sym_is_symbolic(double d) { return is_sym(d); }
@@ -902,7 +915,7 @@ int main(int argc, char** argv) {
   if (getenv("SYM_BUDGET_S")) sh->deadline = now_s() + atof(getenv("SYM_BUDGET_S"));
   ctx = new z3::context();
   if (getenv("SYM_INC_TIMEOUT_MS")) inc_timeout_ms = atoi(getenv("SYM_INC_TIMEOUT_MS"));
-  slv = new z3::solver(*ctx); nl_memo = new std::map<unsigned, bool>(); decided = new std::map<unsigned, bool>(); keep = new std::vector<z3::expr>(); posvars = new std::set<unsigned>(); poskeep = new std::vector<z3::expr>(); sign_memo = new std::map<unsigned, int>();
+  slv = new z3::solver(*ctx); nl_memo = new std::map<unsigned, bool>(); decided = new std::map<unsigned, bool>(); keep = new std::vector<z3::expr>(); ustream = new std::vector<double>(); if (getenv("SYM_MAX_DRAWS")) umax_draws = atoi(getenv("SYM_MAX_DRAWS")); posvars = new std::set<unsigned>(); poskeep = new std::vector<z3::expr>(); sign_memo = new std::map<unsigned, int>();
   terms = new std::vector<Term>(); somp = new z3::params(*ctx); somp->set("som", true); somp->set("som_blowup", 100000u); somp->set("expand_power", true); somp->set("arith_lhs", true);
   inputs = new std::vector<std::pair<std::string, z3::expr>>(); choices = new std::vector<std::string>(); axioms_used = new std::vector<std::string>();
   ufs = new std::map<std::string, z3::func_decl>(); tapps = new std::map<std::string, std::vector<TApp>>(); sqrt_of = new std::map<std::string, Term>();
